@@ -214,8 +214,8 @@ func main() {
 	var crossEv []map[string]any
 	var entriesByPkg = map[string][]string{}
 	jobs := prop.Jobs(*tier)
-	if g, ok := goldenByProp[prop.ID]; ok && !*noGolden {
-		jobs = append(jobs, goldenJobs(prop.ID, g.filter, g.what, g.modes...)...)
+	if !*noGolden {
+		jobs = append(jobs, goldenJobsFor(prop.ID)...)
 	}
 	for _, j := range jobs {
 		entriesByPkg[j.Pkg] = append(entriesByPkg[j.Pkg], j.Entry)
